@@ -5,8 +5,13 @@
 //! dsim gen  --prop C01 --tier quick --seed S --index I      (prints the program JSON)
 //! dsim merge FILE...              (count distinct u64 in binary files)
 
+mod asy;
+mod bodies;
 mod common;
 mod fes;
+mod net;
+mod net_gen;
+mod net_oracles;
 mod prng;
 mod rt;
 
@@ -24,6 +29,8 @@ pub enum Program {
     Fes(fes::FesProgram),
     #[serde(rename = "rt")]
     Rt(rt::RtProgram),
+    #[serde(rename = "net")]
+    Net(net::NetProgram),
 }
 
 pub fn generate(prop: &str, seed: u64, tier: Tier) -> Program {
@@ -38,6 +45,11 @@ pub fn generate(prop: &str, seed: u64, tier: Tier) -> Program {
             }
         }
         "C02" | "C10" | "C11" => Program::Rt(rt::generate(prop, &mut rng, tier)),
+        "C08" => Program::Net(net_gen::gen_c08(&mut rng, tier)),
+        "C07" => Program::Net(net_gen::gen_c07(&mut rng, tier)),
+        "C12" => Program::Net(net_gen::gen_c12(&mut rng, tier)),
+        "C14" => Program::Net(net_gen::gen_c14(&mut rng, tier)),
+        "C04" => Program::Net(net_gen::gen_c04(&mut rng, tier)),
         _ => {
             eprintln!("dsim: no engine for property {prop}");
             std::process::exit(2);
@@ -49,7 +61,43 @@ pub fn execute(prop: &str, prog: &Program) -> RunInfo {
     match prog {
         Program::Fes(p) => fes::execute(p, prop),
         Program::Rt(p) => rt::execute(p, prop),
+        Program::Net(p) => execute_net(prop, p),
     }
+}
+
+fn execute_net(prop: &str, p: &net::NetProgram) -> RunInfo {
+    let mut info = RunInfo::default();
+    let opts = net::RunOpts { collect_gate_info: prop == "C08" };
+    let res = net::run_net(p, &opts);
+    info.trace_hash = net::trace_hash(&res.trace);
+    match prop {
+        "C08" => net_oracles::check_c08(p, &res, &mut info),
+        "C07" => net_oracles::check_c07(p, &res, &mut info),
+        "C12" => net_oracles::check_c12(p, &res, &mut info),
+        "C14" => net_oracles::check_c14(p, &res, &mut info),
+        "C04" => {
+            // same program, same seed, again in this process
+            let res2 = net::run_net(p, &opts);
+            let h2 = net::trace_hash(&res2.trace);
+            info.events += res.ok.map_or(0, |o| o.1 as u64);
+            info.sim_time_ns += u128::from(res.ok.map_or(0, |o| o.0));
+            if info.trace_hash != h2 || res.ok != res2.ok || res.errors != res2.errors {
+                let pos = res.trace.iter().zip(res2.trace.iter()).position(|(a, b)| a != b).unwrap_or(res.trace.len().min(res2.trace.len()));
+                info.violate(Violation::new("C04", "same-process-rerun", format!(
+                    "two executions of the same seeded model in one process diverge at trace record #{pos}: {:?} vs {:?}; results {:?} vs {:?}",
+                    res.trace.get(pos), res2.trace.get(pos), res.ok, res2.ok)));
+            }
+            let jitter = p.links.iter().any(|l| l.chan.as_ref().map_or(false, |c| c.jitter_ns > 0));
+            let rnd = res.trace.iter().any(|r| matches!(r.ev, net::Ev::Rand { .. }));
+            info.nontrivial = (jitter && res.trace.iter().any(|r| matches!(r.ev, net::Ev::Recv { .. }))) || rnd;
+            // fold the result into the hash that is compared across processes
+            let mut th = TraceHash(info.trace_hash);
+            th.push(hash64(&(res.ok, &res.errors)));
+            info.trace_hash = th.0;
+        }
+        _ => {}
+    }
+    info
 }
 
 // ---------------------------------------------------------------- panic capture
@@ -95,6 +143,32 @@ pub fn clear_panic() {
 // ---------------------------------------------------------------- crash reporting
 
 static CUR_INDEX: AtomicU64 = AtomicU64::new(u64::MAX);
+static HEARTBEAT: AtomicU64 = AtomicU64::new(0);
+
+/// A run that makes no progress for `secs` seconds of wall time is reported like a crash (with its index).
+/// The watchdog thread only reads two atomics; it never touches the simulated code.
+fn start_watchdog(secs: u64) {
+    std::thread::spawn(move || {
+        let mut last = HEARTBEAT.load(Ordering::Relaxed);
+        let mut stale = 0u64;
+        loop {
+            std::thread::sleep(std::time::Duration::from_secs(1));
+            let now = HEARTBEAT.load(Ordering::Relaxed);
+            if now == last && CUR_INDEX.load(Ordering::Relaxed) != u64::MAX {
+                stale += 1;
+                if stale >= secs {
+                    let idx = CUR_INDEX.load(Ordering::Relaxed);
+                    println!("CRASH signal=0 index={idx} watchdog: no progress for {secs}s");
+                    let _ = std::io::stdout().flush();
+                    unsafe { libc::_exit(3) };
+                }
+            } else {
+                stale = 0;
+                last = now;
+            }
+        }
+    });
+}
 
 extern "C" fn on_fatal_signal(sig: libc::c_int) {
     // async-signal-safe: format by hand, write(2), _exit
@@ -220,6 +294,9 @@ fn cmd_run(args: &[String]) -> i32 {
     let out = arg(args, "--out").expect("--out").to_string();
     let known = arg(args, "--known").map(load_known).unwrap_or_default();
     let roundtrip = args.iter().any(|a| a == "--roundtrip");
+    let perturb = args.iter().any(|a| a == "--perturb");
+    let want_hashes = args.iter().any(|a| a == "--hashes");
+    let mut per_index: Vec<(u64, u64)> = Vec::new();
 
     let mut agg = Aggregate::default();
     let mut violation: Option<serde_json::Value> = None;
@@ -228,6 +305,7 @@ fn cmd_run(args: &[String]) -> i32 {
 
     for i in from..to {
         CUR_INDEX.store(i, Ordering::Relaxed);
+        HEARTBEAT.fetch_add(1, Ordering::Relaxed);
         let s = prng::mix(seed, &prop, i);
         let mut prog = generate(&prop, s, tier);
         if roundtrip {
@@ -237,7 +315,13 @@ fn cmd_run(args: &[String]) -> i32 {
             assert_eq!(hash64(&prog), hash64(&back), "program does not survive a JSON round trip");
             prog = back;
         }
+        if perturb && (i == from || i % 64 == 0) {
+            perturb_process(prng::mix(seed, "perturb", i));
+        }
         let info = run_guarded(&prop, &prog);
+        if want_hashes {
+            per_index.push((i, info.trace_hash));
+        }
         next = i + 1;
         agg.evaluations += 1;
         agg.sim_time_ns += info.sim_time_ns;
@@ -279,6 +363,13 @@ fn cmd_run(args: &[String]) -> i32 {
     }
     CUR_INDEX.store(u64::MAX, Ordering::Relaxed);
 
+    if want_hashes {
+        let mut txt = String::new();
+        for (i, h) in &per_index {
+            txt.push_str(&format!("{i} {h}\n"));
+        }
+        std::fs::write(format!("{out}.hashes"), txt).expect("write per-index hashes");
+    }
     write_hashes(&format!("{out}.nontrivial"), &agg.nontrivial_hashes);
     write_hashes(&format!("{out}.traces"), &agg.trace_hashes);
     write_hashes(&format!("{out}.states"), &agg.state_hashes);
@@ -298,8 +389,27 @@ fn cmd_run(args: &[String]) -> i32 {
     0
 }
 
+/// Shifts process-global identity: module ids, sleep ids and message counters (by running unrelated
+/// simulations first) and heap addresses (by leaking a prelude), both sized from the seed.
+fn perturb_process(seed: u64) {
+    let mut rng = prng::Rng::new(seed);
+    let sims = rng.below(20);
+    for _ in 0..sims {
+        let p = net_gen::gen_c04(&mut rng, Tier::Quick);
+        let _ = net::run_net(&p, &net::RunOpts { collect_gate_info: false });
+    }
+    let kb = rng.below(2000) as usize;
+    let prelude: Vec<u8> = vec![0xAB; kb * 1024 + 13];
+    std::mem::forget(prelude);
+    let small: Vec<Box<u64>> = (0..rng.below(500)).map(Box::new).collect();
+    std::mem::forget(small);
+}
+
 fn cmd_exec(args: &[String]) -> i32 {
     let prop = arg(args, "--prop").expect("--prop").to_string();
+    if args.iter().any(|a| a == "--perturb") {
+        perturb_process(0xC04);
+    }
     let mut s = String::new();
     std::io::stdin().read_to_string(&mut s).expect("stdin");
     let prog: Program = match serde_json::from_str(&s) {
@@ -355,6 +465,10 @@ fn main() {
     let args: Vec<String> = std::env::args().skip(1).collect();
     install_panic_hook();
     install_signal_handlers();
+    let wd: u64 = arg(&args, "--watchdog").and_then(|s| s.parse().ok()).unwrap_or(45);
+    if wd > 0 {
+        start_watchdog(wd);
+    }
     let code = match args.first().map(String::as_str) {
         Some("run") => cmd_run(&args[1..]),
         Some("exec") => cmd_exec(&args[1..]),
